@@ -213,17 +213,26 @@ def D3(m, R):
             R.viol(sf, sf.node, 'copies the wrapped string and re-wraps it but never applies %s to the copy: the method returns an unchanged value' % name, construct=cons)
             continue
         expr, ret = single_return(sf)
+        if name == '__eq__':
+            # another AnsiStr is equal exactly when the renderings are equal; anything else is unequal (guard first or a conjunction)
+            rets = [n for n in sf.walk() if isinstance(n, ast.Return)]
+            v = sf.own_params()[0]
+            final = rets[-1].value if rets else None
+            conj = list(final.values) if isinstance(final, ast.BoolOp) and isinstance(final.op, ast.And) else [final]
+            cmp_ = conj[-1] if conj else None
+            ok = cmp_ is not None and isinstance(cmp_, ast.Compare) and len(cmp_.ops) == 1 and isinstance(cmp_.ops[0], ast.Eq) and \
+                {norm(cmp_.left), norm(cmp_.comparators[0])} == {'str(%s)' % selfn, 'str(%s)' % v}
+            guard = any(norm(x) == 'isinstance(%s, AnsiStr)' % v for x in conj[:-1]) or \
+                any(isinstance(n, ast.If) and norm(n.test) == 'not isinstance(%s, AnsiStr)' % v and len(n.body) == 1 and isinstance(n.body[0], ast.Return) and
+                    const_val(n.body[0].value, None) is False for n in sf.body)
+            pr_ = []
+            if not ok:
+                pr_.append('__eq__ returns %s, not the comparison of the two renderings' % short(final))
+            if not guard:
+                pr_.append('a value that is not an AnsiStr is not rejected first')
+            R.check(not pr_, sf, rets[-1] if rets else sf.node, '__eq__ compares the renderings of two AnsiStr', '; '.join(pr_), construct=cons)
+            continue
         if expr is None:
-            # __eq__ : isinstance guard then compare renderings
-            if name == '__eq__':
-                rets = [n for n in sf.walk() if isinstance(n, ast.Return)]
-                v = sf.own_params()[0]
-                final = rets[-1].value if rets else None
-                ok = final is not None and isinstance(final, ast.Compare) and isinstance(final.ops[0], ast.Eq) and \
-                    {norm(final.left), norm(final.comparators[0])} == {'str(%s)' % selfn, 'str(%s)' % v}
-                R.check(ok, sf, rets[-1] if rets else sf.node, '__eq__ compares the renderings of two AnsiStr',
-                        '__eq__ returns %s' % short(final), construct=cons)
-                continue
             R.undecided(sf, sf.node, 'twin form not recognised', construct=cons)
             continue
         # form (i): return self.W.<same>(params)   (queries / renderers)
@@ -280,8 +289,11 @@ def D3(m, R):
                     'join returns %s' % short(expr), construct=cons)
             continue
         if name == '__iter__':
-            ok = call_name(expr) == 'iter' and len(expr.args) == 1 and isinstance(expr.args[0], ast.Call) and \
-                call_name(expr.args[0]) in m.classes and [norm(a) for a in expr.args[0].args] == [selfn]
+            it_ = expr.args[0] if call_name(expr) == 'iter' and len(expr.args) == 1 else expr
+            ok = isinstance(it_, ast.Call) and call_name(it_) in m.classes and [norm(a) for a in it_.args] == [selfn]
+            if ok and it_ is expr:
+                from .D6 import _returns_self
+                ok = _returns_self(m.classes[call_name(it_)].methods.get('__iter__'))
             R.check(ok, sf, ret, '__iter__ iterates a char iterator over this AnsiStr', '__iter__ returns %s' % short(expr), construct=cons)
             continue
         # sibling composition: both bodies are `return self.X(args)` with the same X and the same arguments (modulo inplace)
@@ -308,7 +320,8 @@ def D3(m, R):
             continue
         calls_twin = any(isinstance(x, ast.Call) and isinstance(x.func, ast.Attribute) and x.func.attr == name and
                          (norm(x.func.value) == wrapped or isinstance(x.func.value, ast.Name)) for x in sf.walk())
-        if not calls_twin:
+        inert = all(call_name(x) in ('AnsiStr', 'AnsiString', 'copy', 'str') for x in sf.walk() if isinstance(x, ast.Call))
+        if not calls_twin and inert:
             R.viol(sf, ret, 'returns %s without ever calling AnsiString.%s: the AnsiStr result is computed by something other than the twin operation' % (short(expr), name),
                    construct=cons)
             continue
